@@ -5,7 +5,7 @@ import random
 from . import core, dp, filescommon
 
 PID = "C16"
-KINDS = ["empty", "valid", "random", "readonly", "short"]
+KINDS = ["empty", "valid", "random", "readonly", "short", "leftover", "noI", "nobucket", "noSnoI", "emptybolt", "otherbolt", "boltdata"]
 
 
 def run(rep, scratch, tier, seed, replay=None):
@@ -31,7 +31,7 @@ def run(rep, scratch, tier, seed, replay=None):
         k += 1
         lines.append("DOUBLEFLUSH c%d %s" % (k, ds.did))
         cases.append(("c%d" % k, "DOUBLEFLUSH", "", ""))
-        for mode in ("ondemand", "preload", "cached", "cached+preload"):
+        for mode in ("ondemand", "preload", "cached", "cached+preload", "big/ondemand", "big/cached+preload"):
             k += 1
             lines.append("READONLYDB c%d %s %s" % (k, ds.did, mode))
             cases.append(("c%d" % k, "READONLYDB", mode, ""))
